@@ -153,6 +153,7 @@ int main(void)
             dump();
         }
         else if (!strcmp(cmd, "adv")) { long long ms = 0; sscanf(line, "%*s %lld", &ms); Sim_advance((uint64_t) ms); }
+        else if (!strcmp(cmd, "clock")) { long long ms = 0; sscanf(line, "%*s %lld", &ms); Sim_setTime((uint64_t) ms); }   /* origin of the monotonic clock */
         else printf("? %s", line);
         fflush(stdout);
     }
